@@ -10,7 +10,7 @@ ASSUME = ["Byzantine keys are assumed to have signed everything (ground truth co
 
 
 def run(tier, seed):
-    args = ["-runs", 120, "-steps", 220] if tier == "quick" else ["-runs", 1500, "-steps", 400]
+    args = ["-runs", 240, "-steps", 220] if tier == "quick" else ["-runs", 1500, "-steps", 400]
     return protolib.run_property(PROP, tier, seed, args, RULE, assumptions=ASSUME, scripts=300 if tier == "quick" else 100000)
 
 
